@@ -38,6 +38,21 @@ func c07Extra(c *Check) {
 	n := 0
 	for i := 0; i < st.NumFields(); i++ {
 		f := st.Field(i)
+		if sl, isSlice := f.Type().Underlying().(*types.Slice); isSlice {
+			// a scratch buffer kept on the entry (serialisation / receive space): it is written on every
+			// reply, so it must be this entry's own allocation, never one handed down from the manager
+			if b, isB := sl.Elem().Underlying().(*types.Basic); isB && b.Kind() == types.Byte {
+				for _, fr := range fieldRefs(srvFns, f) {
+					if fr.Kind != "store" {
+						continue
+					}
+					n++
+					c.Req(isNilConst(fr.Val) || c07freshValue(p, fr.Val, fr.Fn, 0), "C07.R5:fresh-per-session:"+f.Name()+":"+fnName(fr.Fn), rule, p.InstrPos(fr.Instr),
+						"byte buffer "+f.Name()+" of the session entry is not allocated for this entry (shared between sessions): two sessions replying at the same time overwrite each other's serialised datagram, so bytes read from one session's socket leave under another session's ID")
+				}
+			}
+			continue
+		}
 		pt, ok := f.Type().(*types.Pointer)
 		if !ok {
 			continue
@@ -127,6 +142,36 @@ func c07freshValue(p *Prog, v ssa.Value, fn *ssa.Function, depth int) bool {
 	switch x := v.(type) {
 	case *ssa.Alloc:
 		return x.Heap && x.Parent() == fn
+	case *ssa.MakeSlice:
+		return x.Parent() == fn
+	case *ssa.Slice:
+		// make([]T, const) is lowered to `new [N]T` + a full slice
+		if al, ok := x.X.(*ssa.Alloc); ok && al.Comment == "makeslice" && al.Parent() == fn {
+			return true
+		}
+		return false
+	case *ssa.Parameter:
+		// handed in by the caller: fresh if every (visible) call site passes a fresh value
+		if depth > 2 || x.Parent() != fn {
+			return false
+		}
+		sites, ok := visibleCallSites(p, fn)
+		if !ok || len(sites) == 0 {
+			return false
+		}
+		idx := -1
+		for i, q := range fn.Params {
+			if q == x {
+				idx = i
+			}
+		}
+		for _, site := range sites {
+			arg := c03ArgAt(site, idx)
+			if arg == nil || !c07freshValue(p, arg, site.Parent(), depth+1) {
+				return false
+			}
+		}
+		return true
 	case *ssa.Call:
 		g := staticCallee(x)
 		if g == nil || !p.IsRepoFn(g) || depth > 2 {
